@@ -342,6 +342,44 @@ func c13HdrCanon(h p2p.Header) []byte {
 	return b
 }
 
+// whether proto.Marshal of the value is reproducible (no map with more than one entry inside)
+func c13ValueDet(v *structpb.Value) bool {
+	switch k := v.GetKind().(type) {
+	case *structpb.Value_StructValue:
+		if len(k.StructValue.GetFields()) > 1 {
+			return false
+		}
+		for _, f := range k.StructValue.GetFields() {
+			if !c13ValueDet(f) {
+				return false
+			}
+		}
+	case *structpb.Value_ListValue:
+		for _, f := range k.ListValue.GetValues() {
+			if !c13ValueDet(f) {
+				return false
+			}
+		}
+	}
+	return true
+}
+
+// the header as (key, marshalled Value) pairs; ok = false when some Value is not reproducible
+func c13HdrEntries(h p2p.Header) (es []c13Any, ok bool) {
+	ok = true
+	for k, v := range h {
+		if v == nil || !c13ValueDet(v) {
+			return nil, false
+		}
+		b, err := proto.Marshal(v)
+		if err != nil {
+			return nil, false
+		}
+		es = append(es, c13Any{Url: []byte(k), Val: b})
+	}
+	return es, ok
+}
+
 func c13ReadHdrObs(s p2p.MetadataStream) (o c13RObs) {
 	defer func() {
 		if r := recover(); r != nil {
@@ -390,6 +428,8 @@ func c13Session(e *vfEnv, class string, in c13In) {
 		inner []byte
 		innOK bool
 		canon []byte
+		ents  []c13Any
+		entOK bool
 	}
 	bs := make([]built, len(in.WOps))
 	wobs := make([]c13WObs, len(in.WOps))
@@ -423,6 +463,7 @@ func c13Session(e *vfEnv, class string, in c13In) {
 					}
 				}
 				b.canon = c13HdrCanon(b.hdr)
+				b.ents, b.entOK = c13HdrEntries(b.hdr)
 				err = wms.WriteHeader(ctx, b.hdr)
 			case 2:
 				b.st = status.FromProto(c13StatusProto(op.S))
@@ -571,7 +612,11 @@ func c13Session(e *vfEnv, class string, in c13In) {
 				if wobs[i].K == "ok" && len(wobs[i].B) >= 4 {
 					payload = coqOpt(true, coqBytes(wobs[i].B[4:]))
 				}
-				wops[i] = coqApp("WHdr", payload, coqBytes(b.canon))
+				ents := make([]string, len(b.ents))
+				for j, en := range b.ents {
+					ents[j] = coqPair(coqBytes(en.Url), coqBytes(en.Val))
+				}
+				wops[i] = coqApp("WHdr", payload, coqBytes(b.canon), coqOpt(b.entOK, coqList(ents)))
 			case 2:
 				wops[i] = coqApp("WStatus", c13CoqStatus(op.S))
 			default:
@@ -1232,6 +1277,39 @@ func TestVerifC13(t *testing.T) {
 		run("all-types", c13In{Kind: 0, Honest: true, Pattern: []int{sz}, Pattern2: []int{4 - sz, 1}, WOps: ops, ROps: rops})
 	}
 	run("empty-session", c13In{Kind: 0, Honest: true, Pattern: []int{1}, Pattern2: []int{1}})
+	// the production arrangement: the header is read through the metadata stream's reader, what
+	// follows through the data stream's reader, both over the same network stream, and the header
+	// arrives in ONE chunk together with the frames behind it (a reader that reads ahead loses them)
+	for i := 0; i < 12; i++ {
+		hop := c13GenHeaderOp(r, 3)
+		var ops []c13WOp
+		var rops []int
+		switch i % 4 {
+		case 0:
+			ops = []c13WOp{hop, c13GenMsgOp(r), c13GenMsgOp(r)}
+		case 1:
+			ops = []c13WOp{hop, {Kind: 2, S: &c13Status{Code: int32(1 + r.Intn(16)), Msg: c13Text(r)}}}
+		case 2:
+			ops = []c13WOp{hop, c13GenHeaderOp(r, 3), c13GenMsgOp(r), {Kind: 3, H: &c13Herr{Kind: 0, Text: []byte("boom")}}}
+		default:
+			ops = []c13WOp{hop, c13GenMsgOp(r), c13GenHeaderOp(r, 3), c13GenMsgOp(r)}
+		}
+		for j := range ops {
+			if ops[j].Kind == 0 && ops[j].Typ == "badutf8" {
+				ops[j] = c13WOp{Kind: 0, Typ: "empty"}
+			}
+			if ops[j].Kind == 1 {
+				rops = append(rops, 1)
+			} else {
+				rops = append(rops, 0)
+			}
+		}
+		pat := []int{1 << 20}
+		if i >= 8 {
+			pat = []int{40 + r.Intn(400)}
+		}
+		run("one-chunk", c13In{Kind: 0, Honest: true, Pattern: pat, Pattern2: []int{1 << 20}, WOps: ops, ROps: rops})
+	}
 
 	// interleaved so that the Coq shards are of similar weight
 	for i := 0; i < e.N*8/10; i++ {
